@@ -125,6 +125,8 @@ class InterpBase(object):
         self.registries = None
         self.attr_types = None
         self.loop_rounds = {}
+        self.merges = {}
+        self._merge_ids = {}
         self._prepare()
 
     # ------------------------------------------------------------------
